@@ -26,6 +26,30 @@ example : Gen.matrix_SubMatrix (arr 3 4 (fun i j => 10 * i + j)) 1 2 3 4 =
 example : Gen.matrix_SubMatrix #[#[0, 1, 2, 3], #[10, 11, 12, 13], #[20, 21, 22, 23]] 1 2 3 4 =
     some (#[#[12, 13], #[22, 23]], none) := by decide +kernel
 
+/-- `SwapRows(a, b)` with both rows in range exchanges exactly rows `a` and `b` (every other row, and every entry
+within a row, stays), with a `nil` error -/
+theorem C17m_SwapRows (n w : Nat) (E : Nat → Nat → Nat) (a b : Nat) (ha : a < n) (hb : b < n) :
+    Gen.matrix_SwapRows (arr n w E) (a : Int) (b : Int) = some (arr n w (fun i j => E (swp a b i) j), none) :=
+  swapRows_arr n w E a b ha hb
+
+/-- `SwapRows` with a row index out of range (negative or `≥ len(m)`) returns `errInvalidRowSize`, leaves the matrix
+as it is and does not panic — for every matrix value and every pair of `int`s -/
+theorem C17m_SwapRows_invalid (m : Array (Array Nat)) (r1 r2 : Int)
+    (h : r1 < 0 ∨ (m.size : Int) ≤ r1 ∨ r2 < 0 ∨ (m.size : Int) ≤ r2) :
+    Gen.matrix_SwapRows m r1 r2 = some (m, some "errInvalidRowSize") := by
+  unfold Gen.matrix_SwapRows
+  have hc : (((r1 < 0) ∨ ((Int.ofNat m.size) ≤ r1)) ∨ (r2 < 0)) ∨ ((Int.ofNat m.size) ≤ r2) := by
+    simp only [Int.ofNat_eq_natCast]; omega
+  simp only [hc, if_true]
+  rfl
+
+example : Gen.matrix_SwapRows #[#[1, 2], #[3, 4], #[5, 6]] 0 2 = some (#[#[5, 6], #[3, 4], #[1, 2]], none) := by
+  decide +kernel
+example : Gen.matrix_SwapRows #[#[1, 2], #[3, 4]] 0 2 = some (#[#[1, 2], #[3, 4]], some "errInvalidRowSize") :=
+  C17m_SwapRows_invalid _ 0 2 (by decide)
+
 end RSV.Props.C17submatrix
 
 #print axioms RSV.Props.C17submatrix.C17m_SubMatrix
+#print axioms RSV.Props.C17submatrix.C17m_SwapRows
+#print axioms RSV.Props.C17submatrix.C17m_SwapRows_invalid
